@@ -159,12 +159,12 @@ func harnessOverlay(pkgDir string) (map[string][]byte, map[string]string, string
 }
 
 type oblResult struct {
-	O        Obligation
-	Res      *symexec.Result
-	LoadSec  float64
-	Err      string
-	Confirmed []*symexec.Violation
-	KnownHit  []*symexec.Violation
+	O           Obligation
+	Res         *symexec.Result
+	LoadSec     float64
+	Err         string
+	Confirmed   []*symexec.Violation
+	KnownHit    []*symexec.Violation
 	Unconfirmed []*symexec.Violation
 }
 
@@ -529,33 +529,33 @@ func cmdReplay(args []string) int {
 
 func writeEvidence(prop, tier string, results []*oblResult, replays int, wall float64, exit int, lines []string) {
 	type sample struct {
-		Obligation  string            `json:"obligation"`
-		Harness     string            `json:"harness"`
-		Package     string            `json:"package"`
-		Bounds      string            `json:"bounds"`
-		Oracle      string            `json:"oracle,omitempty"`
-		Paths       int               `json:"paths"`
-		Completed   int               `json:"paths_completed"`
-		Dropped     int               `json:"paths_dropped_by_assume"`
-		Decisions   int64             `json:"decisions"`
-		Queries     int               `json:"solver_queries"`
-		Sat         int               `json:"sat"`
-		Unsat       int               `json:"unsat"`
-		Unknown     int               `json:"unknown"`
-		AssertQ     int               `json:"assertion_queries"`
-		AssertUnsat int               `json:"assertion_queries_unsat"`
-		SolverSec   float64           `json:"solver_seconds"`
-		WallSec     float64           `json:"wall_seconds"`
-		LoadSec     float64           `json:"load_seconds"`
-		Reach       map[string]int    `json:"reach"`
-		RepoFuncs   []string          `json:"repo_functions_interpreted"`
-		LibFuncs    int               `json:"library_functions_interpreted"`
-		Stubs       []string          `json:"models_and_stubs_used"`
-		SamplePC    string            `json:"sample_path_condition,omitempty"`
-		SampleModel map[string]string `json:"sample_model,omitempty"`
-		Violations  []string          `json:"violations,omitempty"`
-		Known       []string          `json:"known_findings_hit,omitempty"`
-		Inconclusive []string         `json:"inconclusive,omitempty"`
+		Obligation   string            `json:"obligation"`
+		Harness      string            `json:"harness"`
+		Package      string            `json:"package"`
+		Bounds       string            `json:"bounds"`
+		Oracle       string            `json:"oracle,omitempty"`
+		Paths        int               `json:"paths"`
+		Completed    int               `json:"paths_completed"`
+		Dropped      int               `json:"paths_dropped_by_assume"`
+		Decisions    int64             `json:"decisions"`
+		Queries      int               `json:"solver_queries"`
+		Sat          int               `json:"sat"`
+		Unsat        int               `json:"unsat"`
+		Unknown      int               `json:"unknown"`
+		AssertQ      int               `json:"assertion_queries"`
+		AssertUnsat  int               `json:"assertion_queries_unsat"`
+		SolverSec    float64           `json:"solver_seconds"`
+		WallSec      float64           `json:"wall_seconds"`
+		LoadSec      float64           `json:"load_seconds"`
+		Reach        map[string]int    `json:"reach"`
+		RepoFuncs    []string          `json:"repo_functions_interpreted"`
+		LibFuncs     int               `json:"library_functions_interpreted"`
+		Stubs        []string          `json:"models_and_stubs_used"`
+		SamplePC     string            `json:"sample_path_condition,omitempty"`
+		SampleModel  map[string]string `json:"sample_model,omitempty"`
+		Violations   []string          `json:"violations,omitempty"`
+		Known        []string          `json:"known_findings_hit,omitempty"`
+		Inconclusive []string          `json:"inconclusive,omitempty"`
 	}
 	var samples []sample
 	states, transitions, evals, nontriv, viol := 0, int64(0), 0, 0, 0
